@@ -57,9 +57,9 @@ func InvocationCapabilityErrorType() schema.Type {
 }
 
 type InvocationCapabilityErrorModel struct {
-	Error        bool
 	Name         *string
 	Message      string
+	Error        bool
 	Capabilities []CapabilityModel
 }
 
